@@ -474,7 +474,7 @@ func Run(ctx *core.Ctx) {
 		"and v2 headers (every command x family byte, lengths 0..2048+, TLV tails; the address-less ones - PROXY with an unlisted family, command nibble >= 2 - through the API and through the full proxy), " +
 		"every TCP6 line of 22-24 bytes over the short address spellings with and without payload, 16% mutated (flip/delete/insert/truncate/prefix/garbage), followed by a payload; each sent in 1-4 writes " +
 		"over loopback TCP or net.Pipe to proxyproto.Listener and read back through Conn (RemoteAddr, LocalAddr, Read, Header) and through the exported ReadHeader; " +
-		"plus net.ParseIP/strconv.Atoi texts, stalled peers, 4 concurrent callers and runs through the full proxy. " +
+		"plus net.ParseIP/strconv.Atoi texts, stalled peers, headers trickled with pauses shorter than the header timeout (compared with Model.C08 readTimed), 4 concurrent callers and runs through the full proxy. " +
 		"A connection case is non-trivial when the input carries a PROXY signature or the model does not answer 'refused'; an ip/atoi case when Go accepts the text. distinct = distinct canonical inputs (bytes, cuts, transport)")
 	for _, c := range core.LoadCorpus(ctx.Root, "C08") {
 		Replay(ctx, c)
@@ -591,6 +591,18 @@ func Run(ctx *core.Ctx) {
 	ctx.Sample(stalls[0])
 	parallel(stalls, 32, func(c stallCase) { checkStall(ctx, c) })
 
+	// trickled headers: pauses that are each shorter than the timeout
+	trickles := genTrickleCases(ctx.Rng.Sub(), ctx.Quick())
+	ctx.Sample(trickles[0])
+	ptrickles := genProxyTrickleCases(ctx.Rng.Sub(), ctx.Quick())
+	ctx.Extra("trickled_headers", fmt.Sprintf("%d schedules against Listener/Conn (header timeout %d ms; one pause in time / too long, two pauses of 2/3 timeout, uniform trickles, complete just before / just after the deadline, refused headers, caller contexts; first call Read, Write, RemoteAddr, LocalAddr, Header, WriteTo, ReadFrom or four callers at once; *Conn over TCP and net.Pipe, behind connfu), %d through the full proxy; every wait bounded by the case's own deadline, a failure is filed when it shows %d times in a row",
+		len(trickles), trickleTimeoutMS, len(ptrickles), trickleTries))
+	var pwg sync.WaitGroup
+	pwg.Add(1)
+	go func() { defer pwg.Done(); checkProxyTrickle(ctx, ptrickles) }()
+	parallel(trickles, 32, func(c trickleCase) { checkTrickle(ctx, c) })
+	pwg.Wait()
+
 	// concurrent callers
 	var concs []concCase
 	for i, n := 0, ctx.N(16, 400); i < n; i++ {
@@ -636,6 +648,14 @@ func Replay(ctx *core.Ctx, raw json.RawMessage) {
 		var c concCase
 		json.Unmarshal(raw, &c)
 		checkConc(ctx, c)
+	case "trickle":
+		var c trickleCase
+		json.Unmarshal(raw, &c)
+		checkTrickle(ctx, c)
+	case "ptrickle":
+		var c ptrickleCase
+		json.Unmarshal(raw, &c)
+		checkProxyTrickle(ctx, []ptrickleCase{c})
 	case "proxy":
 		var c proxyCase
 		json.Unmarshal(raw, &c)
